@@ -127,7 +127,7 @@ def run(chk, replay=None):
         cases.append(link_case(cfg, n, ops)); tags.append("random-seq")
     # read rules: values and timestamps on both sides of a link
     for _ in range(3000 if not big else 150000):
-        t0 = rng.choice([0, -5, 10**9, I64_MAX - 3, I64_MIN + 1, rng.randint(-10**12, 10**12)])
+        t0 = rng.choice([0, -5, 10**9, I64_MAX - 3, I64_MIN + 1, I64_MIN, rng.randint(-10**12, 10**12)])
         def tt(): return max(I64_MIN, min(I64_MAX, t0 + rng.choice([-1, 0, 0, 1, 2])))
         ops = []
         if rng.random() < 0.85: ops.append([1, 0, 1])
